@@ -16,6 +16,12 @@ def unpack_trace_stage(tier):
 
 def unpack_stages(prop, tier, seed):
     st = unpack_stages_a(prop, tier, seed)
+    if prop == "C04":
+        # AllowSymlinkTarget: A/w allow-listed, spelled absolutely and (mode allowrel) relative to dst on a reused Packer
+        for nm, extra in (("allowabs", []), ("allowrel", ["-mode", "allowrel"])):
+            st.append(dict(name=nm, module="MC_Unpack", cfg="MC_Unpack_q.cfg", family="unpack", judge=dict(UNPACK_JUDGE, overrides={"Allow": "<- MCAllowW"}),
+                           overrides={"MaxLen": "2", "Alphabet": "<- AlphaAllow", "Allow": "<- MCAllowW"},
+                           vh_args=["-props", prop, "-gamma", "0,%d" % (seed * 3 + 1)] + extra, exhaustive=True))
     st.append(unpack_trace_stage(tier))
     return st
 
@@ -193,6 +199,9 @@ def prep_stage(name, universe, rulemode, prop, **kw):
 
 def prep_stages(prop, tier, seed):
     q = tier == "quick"
+    if prop == "C10":
+        return [prep_stage("links", "links", "none", prop), prep_stage("rules1", "rules", "single", prop),
+                prep_stage("rules2", "rules", "pairq" if q else "pair", prop)] + [s for s in builder_stages("C13", tier, seed)[:1] if not s.update(vh_args=["-props", "C10"] + s["vh_args"][2:])]
     return [prep_stage("links", "links", "none", prop), prep_stage("rules1", "rules", "single", prop),
             prep_stage("rules2", "rules", "pairq" if q else "pair", prop)]
 
